@@ -150,7 +150,9 @@ func (r *Runner) RunKdc(s *KdcScript, tw *TraceWriter, rng *rand.Rand) error {
 				continue
 			}
 			anySent = true
-			if !bytes.Equal(g, kerb) {
+			// the proxy hangs up on the other KDCs once the first reply is in: a KDC may have seen only a prefix
+			// of the message by then - but never anything else
+			if !bytes.HasPrefix(kerb, g) {
 				sentOK = false
 			}
 		}
